@@ -354,7 +354,7 @@ class C17(F.Check):
             last['choices'] = list(c.taken)
             return r
         last = {'choices': []}
-        ex = explore.Explorer(guarded, check, dev_kinds=('app',), max_dev=cfg['max_dev'], cache=True)
+        ex = explore.Explorer(guarded, check, dev_kinds=('app',), max_dev=cfg['max_dev'], cache=True, max_runs=400000)
         try:
             ex.run()
         except StopJob:
